@@ -318,14 +318,24 @@ impl FormatSpec {
         disp_digit_cnt: i32,
     ) -> String {
         // Don't add separators to the floating decimal point of numbers
-        let mut parts = magnitude_str.splitn(2, '.');
-        let magnitude_int_str = parts.next().unwrap().to_string();
-        let dec_digit_cnt = magnitude_str.len() as i32 - magnitude_int_str.len() as i32;
-        let int_digit_cnt = disp_digit_cnt - dec_digit_cnt;
-        let mut result = FormatSpec::separate_integer(magnitude_int_str, inter, sep, int_digit_cnt);
-        if let Some(part) = parts.next() {
-            result.push_str(&format!(".{part}"))
+        // (nor to an exponent or a percent sign: only the leading digits are grouped)
+        let int_len = if inter == 4 {
+            magnitude_str.find('.').unwrap_or(magnitude_str.len())
+        } else {
+            magnitude_str
+                .find(|c: char| !c.is_ascii_digit())
+                .unwrap_or(magnitude_str.len())
+        };
+        if int_len == 0 {
+            // "inf" / "nan": nothing to group
+            return magnitude_str;
         }
+        let (magnitude_int_str, rest) = magnitude_str.split_at(int_len);
+        let dec_digit_cnt = rest.len() as i32;
+        let int_digit_cnt = disp_digit_cnt - dec_digit_cnt;
+        let mut result =
+            FormatSpec::separate_integer(magnitude_int_str.to_string(), inter, sep, int_digit_cnt);
+        result.push_str(rest);
         result
     }
 
@@ -392,6 +402,9 @@ impl FormatSpec {
             Some(FormatType::Binary | FormatType::Octal | FormatType::Hex(_)) => 4,
             Some(FormatType::Decimal | FormatType::Number(_) | FormatType::FixedPoint(_)) => 3,
             None => 3,
+            Some(
+                FormatType::Exponent(_) | FormatType::GeneralFormat(_) | FormatType::Percentage,
+            ) => 3,
             _ => panic!("Separators only valid for numbers!"),
         }
     }
